@@ -661,6 +661,9 @@ static const void *get_setup_template(long ch,long srate,
           float high=map[j+1];
           float del=(req-low)/(high-low);
           *base_setting=j+del;
+          /* j+del is a float sum and can round up to the next integer;
+             past the last mapping that would index beyond the tables */
+          if(*base_setting>=mappings)*base_setting=mappings-.001;
         }
 
         return(setup_list[i]);
